@@ -98,6 +98,13 @@ func genSortCase(e *Env) *jSortCase {
 		nrows = 20 + r.Intn(30) // beyond insertion-sort threshold of pdqsort
 	}
 	valRange := int64(1 + r.Intn(4)) // few distinct values => ties
+	// integer dimensions are sometimes 64-bit ids: adjacent values beyond 2^53 (not representable as distinct float64)
+	intBase := map[string]int64{}
+	for _, d := range []string{"d1", "d2", "d3"} {
+		if r.Intn(3) == 0 {
+			intBase[d] = []int64{1 << 53, -(1 << 53), (1<<63 - 1) - 8, -(1 << 62)}[r.Intn(4)]
+		}
+	}
 	for i := 0; i < nrows; i++ {
 		row := jRow{TS: 1000 + r.Int63n(valRange+1), Key: map[string]jVal{}}
 		for range c.Fields {
@@ -111,7 +118,7 @@ func genSortCase(e *Env) *jSortCase {
 			case "bool":
 				row.Key[d] = jVal{K: "bool", B: r.Intn(2) == 0}
 			case "int":
-				row.Key[d] = jVal{K: "int", I: r.Int63n(2*valRange+1) - valRange}
+				row.Key[d] = jVal{K: "int", I: intBase[d] + r.Int63n(2*valRange+1) - valRange}
 			case "flt":
 				row.Key[d] = jVal{K: "flt", F: float64(r.Int63n(2*valRange+1) - valRange)}
 			case "str":
